@@ -34,6 +34,7 @@ def run(rep, tier):
     ring_area(rep, F)
     simple_areas(rep, F, ex)
     winding(rep, F)
+    winding_table(rep, F)
 
 
 def single(ex, fn):
@@ -272,3 +273,99 @@ def winding(rep, F):
                     rep.ok("R5.5", "kernel:%s#bb%d" % (short(g.path)[-40:], c.bb))
                 else:
                     rep.bad("R5.5", "kernel-dispatch", "winding_order takes an orientation from `%s` instead of the scalar type's kernel: for floats the winding of a nearly degenerate ring can come out wrong" % short(st), where="%s:%s" % (g.rel_file, c.line))
+
+
+# ------------------------------------------------------------------------------------------------
+def winding_witnesses():
+    """Simple closed rings on a small grid, both orientations, every start vertex, with consecutive repetitions of a
+    vertex inserted (also of the least vertex, also right before the closing coordinate) -> (coords, expected)."""
+    bases = [
+        [(0, 0), (3, 0), (1, 2)],
+        [(0, 0), (2, 0), (2, 2), (0, 2)],
+        [(0, 0), (1, 0), (2, 0), (2, 2), (0, 2), (0, 1)],          # collinear vertices on the edges next to the least vertex
+        [(0, 0), (3, 0), (3, 1), (1, 1), (1, 3), (0, 3)],          # concave
+        [(0, 1), (1, 0), (2, 1), (1, 3)],
+    ]
+    seen = set()
+    for base in bases:
+        for ring in (base, base[::-1]):
+            n = len(ring)
+            for r in range(n):
+                rot = ring[r:] + ring[:r]
+                variants = [rot]
+                for j in range(n):
+                    variants.append(rot[:j + 1] + [rot[j]] + rot[j + 1:])                # vertex j twice
+                    variants.append(rot[:j + 1] + [rot[j], rot[j]] + rot[j + 1:])        # vertex j three times
+                variants.append(rot + [rot[0]])                                          # the first vertex again right before closing
+                variants.append([rot[0]] + rot + [rot[0]])                               # ... and also doubled at the start
+                for v in variants:
+                    coords = tuple(v + [v[0]])
+                    if coords in seen or len(coords) > 9:
+                        continue
+                    seen.add(coords)
+                    a2 = sum(coords[i][0] * coords[i + 1][1] - coords[i + 1][0] * coords[i][1] for i in range(len(coords) - 1))
+                    yield [{"x": x, "y": y} for x, y in coords], ("CounterClockwise" if a2 > 0 else "Clockwise")
+
+
+def winding_table(rep, F, rule="R5.6"):
+    """The path table of LineString::winding_order for a concrete number of coordinates N and a concrete least index k (both supplied
+    as models of coords_count / least_index, so all vertex indices are concrete and the atoms are equalities of ring vertices and one
+    orientation sign) is walked with witness rings: simple rings with repeated vertices in every position."""
+    from ..symex import _ret
+    from ..evalterm import Evaluator, Enum, NoModel
+    rep.rule(rule, "winding_order on witness rings with repeated vertices (every start vertex, both orientations, repetitions of every vertex incl. the least one and the "
+                   "one before the closing coordinate): the path table for each (length, least index) gives the sign of the ring's area")
+    try:
+        fn = F.impl_method("geo::algorithm::winding_order::Winding", r"line_string::LineString<T>$", None, "winding_order", crates=("geo",))
+    except KeyError as e:
+        rep.bad(rule, "winding-table:anchor", str(e))
+        return
+
+    def const(v):
+        return lambda ex, st, call, args: _ret(st, ("const", v))
+    tables = {}
+
+    def table(n, k):
+        if (n, k) not in tables:
+            models = {"geo::utils::least_index": const(k),
+                      "<geo_types::geometry::line_string::LineString<T> as geo::algorithm::coords_iter::CoordsIter>::coords_count": const(n),
+                      "geo::algorithm::coords_iter::CoordsIter::coords_count": const(n)}
+            ex = Symex(F, models=models, loop_bound=n + 2, no_inline=[r"is_closed$"], inline_crates=("geo",))
+            tables[(n, k)] = [p for p in ex.run(fn) if p.kind != "cut"]
+        return tables[(n, k)]
+    calls = {"geo_types::geometry::line_string::LineString::<T>::is_closed": lambda ev, args: (lambda ls: ls["0"][0] == ls["0"][-1])(ev.ev(args[0]))}
+    n_w = 0
+    for coords, want in winding_witnesses():
+        n = len(coords)
+        k = min(range(n), key=lambda i: (coords[i]["x"], coords[i]["y"], i))
+        try:
+            paths = table(n, k)
+            ev = Evaluator(F, {("arg", 1): {"0": coords}}, calls)
+            hit = ev.select_path(paths)
+            if len(hit) != 1:
+                rep.bad(rule, "winding-table", "ring %s selects %d rows of the table for (length %d, least index %d)" % (fmt_ring(coords), len(hit), n, k), where=fn.loc())
+                return
+            if hit[0].kind == "panic":
+                got = "panic"
+            else:
+                r = ev.ev(hit[0].ret)
+                got = r.payload[0].variant if isinstance(r, Enum) and r.variant == "Some" else "None"
+        except Unanalysable as e:
+            rep.bad(rule, "winding-table:unanalysable", str(e), where=fn.loc())
+            return
+        except NoModel as e:
+            rep.bad(rule, "winding-table:non-abstractable", "a decision of winding_order is not a function of vertex equalities and one orientation sign (%s)" % e, where=fn.loc())
+            return
+        n_w += 1
+        if got != want:
+            rep.bad(rule, "winding-table", "for the ring %s (area sign: %s) the path table of winding_order gives %s  [row: %s]" % (fmt_ring(coords), want, got, show_pc(hit[0].pc)[:260]),
+                    where=fn.loc(), detail={"ring": fmt_ring(coords), "want": want, "got": got})
+            return
+    if n_w < 300:
+        rep.bad(rule, "winding-table:floor", "only %d witness rings" % n_w)
+        return
+    rep.ok(rule, "winding-table[%d rings, %d (length, least index) tables]" % (n_w, len(tables)), sample={"rings": n_w, "tables": len(tables)})
+
+
+def fmt_ring(coords):
+    return "[" + " ".join("(%d,%d)" % (c["x"], c["y"]) for c in coords) + "]"
